@@ -15,7 +15,7 @@ Definition rq_reversed (o : binop) : bool := match o with B_Pow => true | _ => f
 Fixpoint eval_r (env : list val) (r : rexpr) : option val :=
   match r with
   | RCol i => Some (nth i env VNull)
-  | RLit l => Some (lit_val l)
+  | RLit l => lit_eval l
   | RCase cs =>
       (fix go (cs : list (rexpr * rexpr)) : option val :=
          match cs with
